@@ -66,7 +66,7 @@ func classReps(class string) []any {
 	case "uint64":
 		return []any{uint64(0), uint64(math.MaxUint64), uint64(1) << 63}
 	case "float32":
-		return []any{float32(0), float32(1.5), float32(-2.75), float32(math.MaxFloat32)}
+		return []any{float32(0), float32(1.5), float32(-2.75), float32(math.MaxFloat32), float32(0.1), float32(3.14), float32(math.SmallestNonzeroFloat32)}
 	case "float64":
 		return []any{0.0, 1.5, -2.75, 3.9999999, 1e300, -1e300}
 	case "nan":
@@ -516,6 +516,13 @@ var bindValues = []bindValue{
 	{"bool", func() any { return true }},
 	{"complex", func() any { return complex(1, 2) }},
 	{"bytes", func() any { return []byte("hi") }},
+	{"bytesjsonobj", func() any { return []byte(`{"id":7,"name":"x"}`) }}, // bytes are bytes (base64 in JSON) also when they look like JSON
+	{"bytesjsonnum", func() any { return []byte("123") }},
+	{"bytesjsonstr", func() any { return []byte(`"hi"`) }},
+	{"rawjson", func() any { return json.RawMessage(`{"id":8,"name":"raw"}`) }},
+	{"resultval", func() any { return flyt.NewResult(42) }}, // a value whose dynamic type is flyt.Result
+	{"errresultval", func() any { return flyt.NewErrorResult(errors.New("inner")) }},
+	{"float32", func() any { return float32(0.1) }},
 	{"negint", func() any { return -1 }},
 	{"shortslice", func() any { return []int{1, 2} }},
 	{"chan", func() any { return make(chan int) }},
@@ -1118,6 +1125,12 @@ func runConfigScenarioOpt(kind string, steps []cfgStep, second bool) []Event {
 		p.mu.Lock()
 		probe["fbfn"] = p.called["fb"]
 		p.mu.Unlock()
+		// settings made between the two probe runs (form "afterrun"): the node has run once with the old ones
+		for _, s := range steps {
+			if s.Form == "afterrun" && s.Param == "conc" {
+				flyt.WithBatchConcurrency(s.Val)(base)
+			}
+		}
 		// probe run B: exec succeeds (batch: item 1 fails, the first c items meet at a barrier)
 		p.failExec = false
 		atomic.StoreInt32(&p.hwm, 0)
@@ -1387,7 +1400,7 @@ func init() {
 				var val int
 				switch prm {
 				case "retries":
-					val = 1 + r.Intn(3)
+					val = r.Intn(4)
 				case "wait", "conc":
 					val = []int{0, 2}[r.Intn(2)]
 				case "mode":
@@ -1421,6 +1434,13 @@ func init() {
 				// the same, with the options kept in one slice from which two nodes are made (the second is probed)
 				id++
 				o.WriteScenario(id, "config", "gen:second", map[string]any{"kind": kind}, nil, runConfigScenarioOpt(kind, all, true))
+			}
+			if kind == "batch" && r.Intn(2) == 0 {
+				// ... with another concurrency level set after the node has run once
+				// (the node has functions and runs concurrently the first time, so that both runs show their level)
+				withAfter := append(append([]cfgStep{}, all...), cfgStep{"prep", "bld", 1, "r"}, cfgStep{"exec", "bld", 1, "r"},
+					cfgStep{"conc", "bld", []int{2, 3}[r.Intn(2)], "r"}, cfgStep{"conc", "afterrun", []int{0, 2, 3}[r.Intn(3)], "r"})
+				run(kind, withAfter, "gen:afterrun")
 			}
 			if r.Intn(2) == 0 {
 				// ... and with a setting that the node's own prep applies while the node runs
